@@ -118,16 +118,16 @@ static void post_state(uint64_t k[2], int with_users)
 }
 
 /* ---------------------------------------------------------------- shape tables */
-typedef struct shape { unsigned char d[700]; int len; unsigned char tail[700]; int taillen; int from; char desc[100]; } shape;
+typedef struct shape { unsigned char d[4700]; int len; unsigned char tail[4700]; int taillen; int from; char desc[100]; } shape;
 static shape *SH; static int nsh, shcap;
 static void add_shape(const unsigned char *d, int len, const unsigned char *tail, int taillen, int from, const char *fmt, ...)
 {
 	if (nsh == shcap) { shcap = shcap ? shcap * 2 : 4096; SH = realloc(SH, sizeof *SH * shcap); }
 	shape *s = &SH[nsh++];
 	memset(s, 0, sizeof *s);
-	if (len > 700) len = 700;
+	if (len > 4700) len = 4700;
 	memcpy(s->d, d, len); s->len = len; s->from = from;
-	if (tail && taillen > 0) { s->taillen = taillen > 700 ? 700 : taillen; memcpy(s->tail, tail, s->taillen); }
+	if (tail && taillen > 0) { s->taillen = taillen > 4700 ? 4700 : taillen; memcpy(s->tail, tail, s->taillen); }
 	va_list ap; va_start(ap, fmt); vsnprintf(s->desc, sizeof s->desc, fmt, ap); va_end(ap);
 }
 
@@ -205,7 +205,7 @@ static int srv_payload(unsigned char *pl, int max)
 	(void)pl; (void)max; return 0;
 }
 
-static unsigned char lastout[4200]; static int lastoutlen;
+static unsigned char lastout[9000]; static int lastoutlen;
 static void cap_send_keep(int d) { vw_dgram *g = &W.dg[d]; lastoutlen = g->len > (int)sizeof lastout ? (int)sizeof lastout : g->len; memcpy(lastout, g->data, lastoutlen); note_out(0, &g->dst, g->data, g->len); vw_dgram_free(d); }
 
 static struct tun_user *pristine;
@@ -490,6 +490,28 @@ static void cli_shapes(int cell)
 		p[k++] = 0xc0; p[k++] = 12; p[k++] = cli_lastq[cli_lastqlen - 4]; p[k++] = cli_lastq[cli_lastqlen - 3]; p[k++] = 0; p[k++] = 1; k += 4; p[k++] = 0; p[k++] = 40;
 		int t = k + delta; p[ptr] = 0xc0 | (t >> 8); p[ptr + 1] = t;
 		add_shape(p, k, NULL, 0, 0, "answer matching the client's query, question name pointing to offset %d of %d, RDLENGTH 40 with no RDATA", t, k);
+	}
+	/* an answer whose record data is longer than the client's 4096-byte record buffer, complete and cut at every offset
+	 * around the 4096th byte of record data (for TXT that is a string boundary) with RDLENGTH left as it was: the
+	 * bytes the record claims beyond the cut are the previous datagram's */
+	if (cell <= 1) {
+		static unsigned char bigpl[4200], big[9000];
+		/* TXT: the payload lengths whose text fills the record buffer to within a string (content <= 4096 < RDLENGTH) and one beyond */
+		int done = 0;
+		for (int bl = cell == 0 ? 4100 : 2540; bl <= (cell == 0 ? 4100 : 2600) && done < 3; bl++) {
+			bigpl[0] = 0x80; bigpl[1] = (1 << 5) | 1; for (int k = 2; k < bl; k++) bigpl[k] = 1 + k % 251;
+			int bn = honest_answer(big, bigpl, bl, de);
+			if (!(bn > 0 && bn <= 4700 && !rd_parse(big, bn, &m, err) && m.nrr >= 1 && m.rr[0].rdlen > 4096)) continue;
+			if (cell == 1 && m.rr[0].rdlen < 4110) continue;           /* the last string has at least 13 bytes */
+			done++;
+			int ro = m.rr[0].rdoff;
+			add_shape(big, bn, NULL, 0, 0, "complete answer with %d bytes of record data", m.rr[0].rdlen);
+			for (int cut = ro + 4088; cut <= ro + 4100 && cut < bn; cut++)
+				add_shape(big, cut, big + cut, bn - cut, 0, "answer with RDLENGTH %d cut after %d bytes of record data", m.rr[0].rdlen, cut - ro);
+			for (int cut = ro + 255; cut < ro + 4088 && cut < bn; cut += 256 * 5)
+				add_shape(big, cut, big + cut, bn - cut, 0, "answer with RDLENGTH %d cut after %d bytes of record data", m.rr[0].rdlen, cut - ro);
+		}
+		if (!done) xp_sample("C12 client cell %d: no answer with more than 4096 bytes of record data could be built", cell);
 	}
 }
 
